@@ -24,6 +24,7 @@ from ..flow import Sym, fpaths, attr_effects
 from ..model import FuncInfo, attr_chain, norm, walk_no_nested
 from ..report import Checker
 from .forward import eval_response_constant
+from .common import idle_predicate_check
 
 CONN_FIELDS = ('work', 'client', 'upstream', 'conn', 'connection', 'server')
 
@@ -52,8 +53,10 @@ def run(ch: Checker) -> None:
                      'HttpProtocolHandler.handle_data hands the parameter to plugin.on_client_data exactly once after the first request completed', 2)
     ch.rule('C01.7', 'client queue sites in proxy/http/proxy/server.py and core/base/tcp_tunnel.py are exactly {relay of received data, PROXY_TUNNEL_ESTABLISHED_RESPONSE_PKT under is_https_tunnel}; '
                      'that packet is `HTTP/1.1 200 Connection established`', 3)
+    ch.rule('C01.9', 'the idle reaper never closes a connection that still holds undelivered relay data: is_inactive() requires an empty client buffer', 1)
     ch.rule('C01.8', 'socket send is called on a connection only by TcpConnection.send, itself only by TcpConnection.flush', 2)
 
+    idle_predicate_check(ch, 'C01.9')
     tc = prog.class_named('TcpConnection')
     conn_classes = [tc] + prog.subclasses(tc)
 
